@@ -69,7 +69,9 @@ func (root *Root) ResolveExecutable(
 
 	op := exe.Ops[opName]
 	if op == nil {
-		if len(exe.Ops) == 1 {
+		// Without a name the only operation is the one to evaluate. A
+		// name that matches no operation selects nothing.
+		if len(opName) == 0 && len(exe.Ops) == 1 {
 			for _, o := range exe.Ops {
 				op = o
 				break
